@@ -99,6 +99,17 @@ def run(ctx: Ctx):
             ctx.fail(cons, g.loc(n), f"watchdog close is not conditioned on: {p} "
                      f"(facts: {_fmt(facts)})")
             break
+        # "if none ARRIVES within the DWA timeout": the DWA is recognised by the connection's reader
+        # thread, which may be busy (the handler of a plain Application runs on it); bytes that
+        # have arrived and wait in the read queue may contain it
+        ctx.inst(cons + "#queued-input")
+        if not any("_read_buffer_queue" in str(f_[0]) or "unread" in str(f_[0]) or "pending_input" in str(f_[0])
+                   for f_ in facts):
+            ctx.fail(cons + "#queued-input", g.loc(n), "the DWA time-out closes the connection without "
+                     "looking at input that has arrived but not been processed yet: a DWA that reached the "
+                     "node 1 ms after the DWR, queued behind a request whose handler runs for longer than "
+                     "the DWA timeout, does not stop the clock - the connection is closed with DWA_TIMEOUT "
+                     "and the running request's answer cannot be routed")
     # no other action is possible in a ready state
     for n, k, c in T.actions:
         if k in ("send_dwr",) or (k == "close" and T.reason(c) == DWA_TIMEOUT):
@@ -274,21 +285,16 @@ def run(ctx: Ctx):
         isinstance(c.func, ast.Attribute) and c.func.attr in ("get", "get_nowait")
         and A.dotted(c.func.value) == "self._read_buffer_queue" for c in n.calls())]
     refresh = [n for n in gq.nodes if any(A.call_name(c) == "self.reset_last_read" for c in n.calls())]
-    cons = "work_read_queue:idle-refresh"
+    # the clock follows arrival only: refreshing it again when the reader takes a chunk from its
+    # queue would make it jump to "now" for bytes that arrived long ago (the reader may have been
+    # busy in a request handler), and an idle peer would get its DWR that much too late
+    cons = "work_read_queue:no-refresh-on-dequeue"
     ctx.inst(cons)
-    if len(gets) != 1 or not refresh:
-        ctx.fail(cons, rq.loc(), "received chunks do not refresh the idle clock (reset_last_read)")
-    else:
-        nxt = [d for l, d in gets[0].succ if l != "exc"]
-        heads = [n for n in gq.nodes if n.kind == "loop"]
-        r = gq.reach(nxt, normal_blocked=refresh)
-        inner_tests = [n for n in r if n.kind in ("test", "loop")]
-        # the refresh must happen before anything else is decided on the chunk
-        if any(h in r for h in heads) or gq.exit in r:
-            ctx.fail(cons, gq.loc(gets[0]), "after taking a chunk from the read queue there is a "
-                     "path on which last_read is not refreshed: a connection that is receiving "
-                     "bytes (a long message arriving in pieces) is treated as idle, gets a DWR and "
-                     "is closed by the watchdog")
+    if refresh:
+        ctx.fail(cons, gq.loc(refresh[0]), "the reader thread refreshes the idle clock when it takes a "
+                 "chunk from its queue: last_read jumps to the time of processing instead of staying "
+                 "at the time of arrival, so after a slow handler the DWR for a silent peer is sent "
+                 "late by the time the chunk waited")
     # ... and already when they ARRIVE: the reader thread may be busy (the request handler of a
     # plain Application runs on it, a large message takes seconds to decode) while the peer keeps
     # sending - bytes waiting in the read queue are received bytes
@@ -314,7 +320,7 @@ def run(ctx: Ctx):
     hc = nc.methods.get("_handle_connections")
     gh = cfg_of(hc)
     loops = [n for n in gh.nodes if n.kind == "iter" and any(
-        m.has_call("_check_timers") for l, m in n.succ if l == "iter")]
+        m.has_call("_check_timers") for m in gh.reach([d for l, d in n.succ if l == "iter"], blocked=[n]))]
     ctx.inst("_handle_connections:timer-pass")
     outer = [n for n in gh.nodes if n.kind == "loop"]
     if not loops or not outer:
@@ -327,8 +333,20 @@ def run(ctx: Ctx):
         if outer[0] in r:
             ctx.fail("_handle_connections:timer-pass", gh.loc(it), "an iteration of the I/O loop can "
                      "skip the timer pass")
-        body = [m for l, m in it.succ if l == "iter"][0]
+        inloop = gh.reach([d for l, d in it.succ if l == "iter"], blocked=[it])
+        body = [m for m in inloop if m.has_call("_check_timers")][0]
         call = [c for c in body.calls() if A.call_name(c) == "self._check_timers"]
+        # the only connections the pass may leave out are those it closes instead (CLOSED, or
+        # CLOSING with nothing left to write): they have no timers any more
+        skip = gh.reach([d for l, d in it.succ if l == "iter"], blocked=[it, body])
+        skipping_exits = [m for m in skip if any(d is it for l, d in m.succ)]
+        for m in skipping_exits:
+            if not any(A.call_name(c) == "self.close_connection_socket" for c in m.calls()) and m is not body:
+                fx = must_facts(gh, Atomizer(model, hc.module, nc), m)
+                ctx.fail("_handle_connections:timer-pass#every-connection", gh.loc(m),
+                         f"the timer pass leaves out a connection without closing it "
+                         f"({sorted(map(str, fx))[:3]}): its time-outs are never checked")
+                break
         if not call or [ast.unparse(a) for a in call[0].args] != [ast.unparse(it.ast.target)]:
             ctx.fail("_handle_connections:timer-pass#arg", gh.loc(body), "_check_timers is not called with the iterated connection")
 
